@@ -28,6 +28,7 @@ META = {
 }
 META["explanation"] += '  Segment names come from four sets (plain letters; s1 / s1.2 / s12; HG002#1#ctg7 / chr1:5-9 / chr1; 1 / x_y|z=; / 1-alt) spread over the harnesses.  tokens/gfa.py: the tokenizer of extract_path decided as a language by z3.'
 META["explanation"] += '  step3/*: two fixed link lines between the two nodes (two-node cycles, parallel links, self-loops) plus a solver-chosen third.'
+META["explanation"] += '  long-node/70001bp: a segment of 70001 bases in both orientations.'
 
 SEQ = {"a": "AAC", "b": "GT", "c": "CCGA"}
 COMP = {"A": "T", "C": "G", "G": "C", "T": "A", "N": "N"}
@@ -116,6 +117,8 @@ def gfa_lines(nodes, links, extra=()):
     return ["H\tVN:Z:1.0\n"] + body + list(extra)
 
 
+LONG_B = ("ACGTTGCAAGTCCA" * 5001)[:70001]
+
 ALL_LINKS2 = [(u, du, v, dv) for u in "ab" for du in "+-" for v in "ab" for dv in "+-"]
 STEP3_PAIRS = [(("a", "+", "b", "+"), ("b", "+", "a", "+")), (("a", "+", "b", "-"), ("a", "-", "b", "+")), (("a", "+", "a", "+"), ("a", "-", "a", "-")),
                (("a", "+", "a", "+"), ("a", "+", "b", "+")), (("b", "-", "a", "+"), ("a", "+", "b", "+")), (("a", "+", "a", "-"), ("b", "+", "b", "-"))]
@@ -131,6 +134,8 @@ def harnesses(tier):
     for o in "><":
         for n in "abc":
             hs.append({"id": "walk/%s%s" % (o, n), "params": {"kind": "walk", "first": [o, n]}, "timeout": 900, "twin": (o, n) == (">", "a")})
+    # a segment longer than 64 KiB (length not a multiple of a power of two), traversed in either orientation
+    hs.append({"id": "long-node/70001bp", "params": {"kind": "long"}, "timeout": 600})
     for cnt in (0, 1, 2, 3):
         for fa in (0, 1):
             hs.append({"id": "find_path/file/%d/%d" % (cnt, fa), "params": {"kind": "file", "count": cnt, "fasta": fa}, "timeout": 600})
@@ -221,6 +226,28 @@ def build(params):
             return None
 
         return Harness(args, pre, case, fuel=50)
+    if kind == "long":
+        def case_long(ox, oy, first):
+            saved = dict(SEQ)
+            try:
+                SEQ["b"] = LONG_B
+                LINE_ORDER[0] = 0
+                NAMESET[0] = 0
+                links = [("a", "+", "b", "+"), ("a", "+", "b", "-"), ("b", "+", "a", "+"), ("b", "-", "a", "+")]
+                g = load_graph(gfa_lines("ab", links))
+                steps = [(pick(ox, "><"), "a"), (pick(oy, "><"), "b")]
+                walk = steps if pick(first, [0, 1]) == 0 else [steps[1], steps[0]]
+                got = g.extract_path(ptext(walk))
+                want = expected(links, walk)
+                if got != want:
+                    return "extract_path(%s) over a 70001 bp segment returned %d bases (first differing position %s), expected %d" % (
+                        ptext(walk), len(got), next((i for i, (x, y) in enumerate(zip(got, want)) if x != y), "none"), len(want))
+                return None
+            finally:
+                SEQ.clear()
+                SEQ.update(saved)
+
+        return Harness([("ox", "int"), ("oy", "int"), ("first", "int")], ["0 <= ox <= 1 and 0 <= oy <= 1 and 0 <= first <= 1"], case_long, fuel=50)
     LINKS = [("a", "+", "b", "+"), ("b", "+", "c", "-"), ("c", "+", "a", "+"), ("b", "-", "b", "+")]
     MENU = [">a>b", "<b<a", ">a>b<c", ">c>a", ">a>c", "<a<c", ">b>b", "<b>b", ">a", "<c>b", ">b<c<a"]
     if kind == "file":
@@ -303,7 +330,15 @@ def replay(params, model, wd):
         LINE_ORDER[0] = 2
         NAMESET[0] = 2
     reqs = []
-    if kind == "step":
+    if kind == "long":
+        SEQ["b"] = LONG_B
+        LINE_ORDER[0] = 0
+        NAMESET[0] = 0
+        links = [("a", "+", "b", "+"), ("a", "+", "b", "-"), ("b", "+", "a", "+"), ("b", "-", "a", "+")]
+        steps = [("><"[a[0]], "a"), ("><"[a[1]], "b")]
+        reqs = [steps if a[2] == 0 else [steps[1], steps[0]]]
+        nodes = "ab"
+    elif kind == "step":
         links = [ALL_LINKS2[params["link"]]]
         if "link2" in params:
             links.append(ALL_LINKS2[params["link2"]])
